@@ -6,6 +6,7 @@ symbolically with a fake `exafmm` package and an uninterpreted kernel family G0 
 w.r.t. the target), zero for coincident points; the dense path uses the same family through the kernel-level
 relations  SL = G0,  DL = -sum_i G_i n_y,i,  ADL = sum_i G_i n_x,i  (these relations are themselves proved
 against the real Numba kernels and the real fmm/helpers kernels in the 'lemma' group)."""
+import os
 import sys
 import time
 import types
@@ -139,7 +140,7 @@ def dense_kernels(fam, kind):
     return reg, sing
 
 
-MODES = {"laplace": ("laplace", False, ()), "helmholtz": ("helmholtz", True, (1.3 + 0.4j,)), "modified_helmholtz": ("modified_helmholtz", False, (0.7,))}
+MODES = {"laplace": ("laplace", False, ()), "helmholtz": ("helmholtz", True, (1.3 + 0.4j,)), "modified_helmholtz": ("modified_helmholtz", False, (0.75,))}
 
 
 def boundary_cfgs(thorough):
@@ -169,6 +170,13 @@ def boundary_cfgs(thorough):
             ("helmholtz", "electric_field", "T9", ("RWG", 0, seg([1, 2], include_boundary_dofs=True)), ("SNC", 0, seg([1, 2], include_boundary_dofs=True)), 1, False),
             ("helmholtz", "double_layer", ("T4", "T2"), ("P", 1, {}), ("DP", 0, {}), 1, False),
         ]
+    only = os.environ.get("VF_C17_ONLY")  # development aid: comma separated config indices (config 0 is always kept)
+    if only:
+        keep = {0} | {int(x) for x in only.split(",")}
+        extra = [("modified_helmholtz", "hypersingular", ("T2", "T2"), ("P", 1, {"include_boundary_dofs": True}), ("P", 1, {"include_boundary_dofs": True}), 1, True),
+                 ("modified_helmholtz", "hypersingular", ("T2", "T2"), ("P", 1, {"include_boundary_dofs": True}), ("P", 1, {"include_boundary_dofs": True}), 2, False),
+                 ("helmholtz", "hypersingular", ("T2", "T2"), ("P", 1, {"include_boundary_dofs": True}), ("P", 1, {"include_boundary_dofs": True}), 2, True)]
+        out = [c for i, c in enumerate(out + extra) if i in keep]
     return out
 
 
@@ -230,6 +238,10 @@ def run(ctx):
                     continue
                 yd = (Ad @ x).view(SA)
             n = 0
+            if os.environ.get("VF_DEV_DIFF") and ci > 0:
+                from ..sym import term as _t
+                d0 = np.asarray(yf, dtype=object).ravel()[0] - np.asarray(yd, dtype=object).ravel()[0]
+                print("DEVDIFF", ci, str(z3.simplify(_t(d0), som=True))[:1500])
             for idx, f in W.entries_eq(np.asarray(yf, dtype=object).ravel(), np.asarray(yd, dtype=object).ravel()):
                 ctx.prove("bnd%d/%s/%s/%s/%d" % (ci, mode, op, mesh, idx[0]), f, [], family="fmm_vs_dense", params=params, abs_cons=False, group="bnd%d-%s-%s" % (ci, mode, op))
                 n += 1
